@@ -5,7 +5,14 @@ From Coq Require Import String List NArith Bool Permutation.
 Import ListNotations.
 Require Import Verif.Model.C17_Graph Verif.Model.C17_Merge Verif.Model.C17_Check
                Verif.Proofs.C17_Graph Verif.Proofs.C17.
+Require Import Verif.Gen.C17_LintShape Verif.Model.C17_Shape.
 Open Scope N_scope.
+
+(* Finite obligation on the regenerated transcription: unusedKey, the key literals, the statements of lint() that touch
+   the used map, and color / colorAndQuieten / Results still have the shape the models were transcribed from. *)
+Theorem c17_source_shape_ok : shape_ok gen_key_fields gen_key_literals gen_merge_shape gen_color_shape = true.
+Proof. exact (eq_refl true). Qed.
+Print Assumptions c17_source_shape_ok.
 
 (* The executable colouring (recursive DFS with fuel S n, as SerializedGraph.color) computes exactly reachability
    from the root inside 0..n-1, for every graph; fuel is always sufficient. *)
